@@ -52,38 +52,51 @@ def check(ctx):
             ctx.ob("C19.Z", K_Z, ok, det, at=b["at"], cfg=cfg)
         # ---- const default
         c01.check_structure(ctx, cfg)
-        spec = {
-            "<GenericArrayImplEven<$0,$1> as const_default::ConstDefault>::DEFAULT": ("GenericArrayImplEven", {"child": 2, "elem": 0}),
-            "<GenericArrayImplOdd<$0,$1> as const_default::ConstDefault>::DEFAULT": ("GenericArrayImplOdd", {"child": 2, "elem": 1}),
-        }
-        for key, (adtname, want) in spec.items():
+        # the node impls are found through the storage types the two recursive ArrayLength impls name (C01.S decides that these, as instantiated, are two
+        # children and `parity` trailing elements): the ConstDefault impl that applies to each, and in its DEFAULT every field other than a marker is
+        # <the field's own type as ConstDefault>::DEFAULT - a child gets the child's constant, an element T's, whatever the parameters are called
+        from ..tys import unify, subst, tstr, adt_args
+        nodes = c01.storage_nodes(db)
+        cd_impls = [i for i in db.impls if i.get("trait") == "const_default::ConstDefault" and i["self"].get("k") == "adt"]
+        seen_keys = set()
+        for bit, parity in (("typenum::B0", 0), ("typenum::B1", 1)):
+            if bit not in nodes:
+                ctx.ob("C19.D", "node#%d" % parity, MISSING, "no storage node for parity %d among the ArrayLength impls" % parity, cfg=cfg)
+                continue
+            aty = nodes[bit][0]
+            hits = [i for i in cd_impls if unify(i["self"], aty, {})]
+            if len(hits) != 1:
+                ctx.ob("C19.D", "node#%d#%s" % (parity, aty["def"]), MISSING, "%d ConstDefault impls apply to the storage node %s (expected exactly one)" % (len(hits), tstr(aty)), cfg=cfg)
+                continue
+            imp = hits[0]
+            key = db.impl_key(imp) + "::DEFAULT"
+            if key in seen_keys:
+                continue   # one impl serving both parities is checked once: the rule below is about its fields, not about the parity
+            seen_keys.add(key)
             b = ctx.body(cfg, key, "C19.D")
             if b is None:
                 continue
             a = ctx.analysis(cfg, key)
+            adtname = imp["self"]["def"]
             adt = db.adts.get(adtname)
-            gens = [g["n"] for g in adt["generics"]]
-            tpar, upar = gens[0], gens[1]
+            sub = {g["n"]: x for g, x in zip([g for g in adt["generics"] if g["kind"] in ("type", "const")], adt_args(imp["self"]))}
             rets = [r["val"] for r in a.returns]
             ok = bool(rets) and not a.calls and not a.casts
-            got = {"child": 0, "elem": 0}
+            got = {"own": 0, "marker": 0, "other": []}
             if ok:
                 v = rets[0]
                 ok = v[0] == "A" and v[1] == ("adt", adtname, 0) and len(v[2]) == len(adt["fields"])
                 if ok:
                     for f, op in zip(adt["fields"], v[2]):
-                        if f["ty"].get("k") == "param" and f["ty"]["n"] == upar:
-                            ok = ok and op == dconst(upar)
-                            got["child"] += 1
-                        elif f["ty"].get("k") == "param" and f["ty"]["n"] == tpar:
-                            ok = ok and op == dconst(tpar)
-                            got["elem"] += 1
-                        elif f["s"].startswith("core::marker::PhantomData<"):
-                            pass  # a zero-sized marker has exactly one value, however the expression for it is spelled
+                        ft = subst(f["ty"], sub)
+                        if ft.get("k") == "adt" and ft["def"] == "core::marker::PhantomData":
+                            got["marker"] += 1  # a zero-sized marker has exactly one value, however the expression for it is spelled
+                        elif op == dconst(tstr(ft)):
+                            got["own"] += 1
                         else:
-                            ok = False
-            ctx.ob("C19.D", key, ok and got == want, "aggregate of %s: child fields = <U as ConstDefault>::DEFAULT x%d, trailing element = <T as ConstDefault>::DEFAULT x%d (spec %s); no call / cast in the body: %s" % (
-                adtname, got["child"], got["elem"], want, not a.calls and not a.casts), at=b["at"], cfg=cfg)
+                            got["other"].append(f["name"])
+            ctx.ob("C19.D", key, ok and not got["other"], "aggregate of %s: %d fields = <their own type as ConstDefault>::DEFAULT, %d markers, fields initialised otherwise: %s; no call / cast in the body: %s" % (
+                adtname, got["own"], got["marker"], got["other"], not a.calls and not a.casts), at=b["at"], cfg=cfg)
         key = "<GenericArray<$0,$1> as const_default::ConstDefault>::DEFAULT"
         b = ctx.body(cfg, key, "C19.D")
         if b is not None:
@@ -104,10 +117,12 @@ def check(ctx):
             rets = [r["val"] for r in a.returns]
             ok = bool(rets) and not a.calls and all(v[0] == "V" and v[1] == "const" and v[2] == CD and v[3][0].startswith("GenericArray<") for v in rets) and b.get("const")
             ctx.ob("C19.D", key, ok, "const fn const_default() returns <Self as ConstDefault>::DEFAULT: %s" % ok, at=b["at"], cfg=cfg)
-        # node ConstDefault impl bounds: U: ConstDefault (and T: ConstDefault for the odd node)
+        # node ConstDefault impl bounds: every type parameter that is the type of a (non-marker) field is bounded by ConstDefault
+        node_defs = {v[0]["def"] for v in nodes.values()}
         for imp in db.impls:
-            if imp.get("trait") == "const_default::ConstDefault" and imp["self"].get("k") == "adt" and imp["self"]["def"].startswith("GenericArrayImpl"):
-                gens = [g["n"] for g in imp["generics"] if g["kind"] == "type"]
-                need = [gens[1]] + ([gens[0]] if imp["self"]["def"].endswith("Odd") else [])
+            if imp.get("trait") == "const_default::ConstDefault" and imp["self"].get("k") == "adt" and imp["self"]["def"] in node_defs:
+                adt = db.adts.get(imp["self"]["def"])
+                sub = {g["n"]: x for g, x in zip([g for g in adt["generics"] if g["kind"] in ("type", "const")], adt_args(imp["self"]))}
+                need = sorted({subst(f["ty"], sub)["n"] for f in adt["fields"] if subst(f["ty"], sub).get("k") == "param"})
                 have = [p["self"]["n"] for p in imp["predicates"] if p.get("k") == "trait" and p["trait"] == "const_default::ConstDefault" and p["self"].get("k") == "param"]
                 ctx.ob("C19.D", db.impl_key(imp) + "#bounds", all(n in have for n in need), "ConstDefault bounds on %s: %s (needed %s)" % (imp["self_s"], have, need), at=imp["at"], cfg=cfg)
